@@ -705,6 +705,12 @@ class Request(interfaces.Request, BaseUnicastRequest):
 
         first_event = yield None
 
+        if self.response.cancelled():
+            # The requester lost interest; its cancellation handler (a done
+            # callback of the future) just did not get to run yet. There is
+            # nobody to hand the event to.
+            return
+
         if first_event.message is not None:
             self._add_response_properties(first_event.message, self._pipe.request)
             self.response.set_result(first_event.message)
